@@ -24,6 +24,17 @@ def out(d):
     sys.exit(0)
 
 
+def srepr(v, n=300):
+    """repr that survives half-built objects (only the fields the model names are set)"""
+    try:
+        return repr(v)[:n]
+    except Exception:
+        try:
+            return "<%s %s>" % (type(v).__name__, {k: srepr(x, 60) for k, x in list(vars(v).items())[:12]})
+        except Exception:
+            return "<%s>" % type(v).__name__
+
+
 def num(v):
     v = str(v).replace("?", "")
     if v in ("True", "False"):
@@ -222,7 +233,7 @@ def main():
         try:
             import native_dsl
             val = eval(compile(native_dsl.tolerant(ast.parse(clause, mode="eval")), "<clause>", "eval"), env)
-            out(dict(confirmed=not bool(val), observed=dict(clause_value=bool(val), args={k: repr(v) for k, v in args.items()}), note="spec-level lemma evaluated natively on the model's arguments"))
+            out(dict(confirmed=not bool(val), observed=dict(clause_value=bool(val), args={k: srepr(v) for k, v in args.items()}), note="spec-level lemma evaluated natively on the model's arguments"))
         except Exception as e:
             out(dict(confirmed=False, note="lemma evaluation failed: %r" % e))
     try:
@@ -251,14 +262,14 @@ def main():
         for i, o in enumerate(rew.olds):
             env["__old_%d" % i] = copy.deepcopy(eval(compile(ast.Expression(o), "<old>", "eval"), env))
     except Exception as e:
-        out(dict(confirmed=False, note="pre-state evaluation of old() failed: %r" % e, args={k: repr(v)[:200] for k, v in args.items()}))
+        out(dict(confirmed=False, note="pre-state evaluation of old() failed: %r" % e, args={k: srepr(v, 200) for k, v in args.items()}))
     exc = None
     result = None
     try:
         result = call()
     except Exception as e:  # noqa
         exc = e
-    observed = dict(result=repr(result)[:300], exception=repr(exc) if exc else None, args={k: repr(v)[:300] for k, v in args.items()})
+    observed = dict(result=srepr(result), exception=srepr(exc) if exc else None, args={k: srepr(v) for k, v in args.items()})
     if kind == "safety" or kind == "raises":
         if exc is not None and "no-unexpected-exception" in rec.get("obligation", ""):
             want = rec["obligation"].split("no-unexpected-exception:")[1].split("@")[0]
